@@ -1,14 +1,19 @@
 (* Dispatch table: entry name -> model entry point.  The harness names the entry on every
    case line; the same table is used by the extracted driver and by the kernel cross-check. *)
 Require Import Gengo.Base.Str Gengo.Base.Sexp.
-Require Gengo.Model.Tags.
+Require Gengo.Model.Tags Gengo.Model.JsonTag.
 
 Definition entries : list (string * (sexp -> option sexp)) := [
   ("C08.old", Tags.run_old);
   ("C08.bool1", Tags.run_bool1);
   ("C08.bool2", Tags.run_bool2);
   ("C08.fn", Tags.run_fn);
-  ("C08.tagstring", Tags.run_tagstring)
+  ("C08.tagstring", Tags.run_tagstring);
+  ("C19.lookup", JsonTag.run_lookup);
+  ("C19.lookup#pcheck", JsonTag.run_pcheck_lookup);
+  ("C19.get", JsonTag.run_get);
+  ("C19.string", JsonTag.run_string);
+  ("C19.jsonrule", JsonTag.run_jsonrule)
 ]%string.
 
 Fixpoint find_entry (name : str) (l : list (string * (sexp -> option sexp))) : option (sexp -> option sexp) :=
